@@ -93,6 +93,7 @@ JudgeNtKernel(e, i) ==
                   [] i.op \in {"mixed_mod_coarse_fine", "int_mod_scaled", "mixed_modassign"} -> TruncRem(b, a)
                   [] i.op = "mixed_mod_fine_coarse" -> TruncRem(a, b)
                   [] i.op = "mixed_div_coarse_fine" -> TruncDiv(b, a)
+                  [] i.op = "neg_elastic_unsigned" -> Neg(a)                  \* -x of an unsigned 32-digit elastic representation: -(int64)rep
         cls == <<"NtKernel", i.op>>
     IN IF (i.op = "mixed_add" /\ (~InT(want, IntT(32, 1)) \/ ~InT(Shl(b, 4), IntT(32, 1))))
           \/ (i.op \in {"mixed_cmp_fine_coarse", "mixed_cmp_coarse_fine"} /\ ~InT(Shl(b, 4), IntT(32, 1)))
